@@ -8,6 +8,7 @@ package main
 // buffered: delivered + reported-dropped = sent).
 
 import (
+	"log"
 	"bytes"
 	"fmt"
 	"golang.org/x/exp/slog"
@@ -119,6 +120,42 @@ func newLogSubject(name, tmp string, ring int) (*logSubject, error) {
 		l, err := logs.NewLogrLogger(logs.NewPlainLogrLoggerFromLoggers(inner), "src")
 		s.loggers, s.sinks["string"] = l, inner.GetLogContent
 		return s, err
+	case "logr-structured":
+		// the full logr sink over Loggers (names, key/values), wrapped back into Loggers
+		inner, err := str()
+		if err != nil {
+			return nil, err
+		}
+		l, err := logs.NewLogrLogger(logs.NewLogrLoggerFromLoggers(inner), "src")
+		s.loggers, s.sinks["string"] = l, inner.GetLogContent
+		return s, err
+	case "via-writers":
+		// Loggers seen as two io.Writers (info / error), written to by standard log.Logger objects
+		inner, err := str()
+		if err != nil {
+			return nil, err
+		}
+		iw, err := logs.NewInfoWriterFromLoggers(inner)
+		if err != nil {
+			return nil, err
+		}
+		ew, err := logs.NewErrorWriterFromLoggers(inner)
+		if err != nil {
+			return nil, err
+		}
+		s.loggers = &logs.GenericLoggers{Output: log.New(iw, "", 0), Error: log.New(ew, "", 0)}
+		s.sinks["string"] = inner.GetLogContent
+		return s, nil
+	case "file-and-std":
+		p := filepath.Join(tmp, "log2.txt")
+		l, err := logs.NewFileLogger(p, "src")
+		s.loggers = l
+		s.sinks["file"] = func() string { b, _ := os.ReadFile(p); return string(b) }
+		return s, err
+	case "pipe":
+		l, err := logs.NewPipeLogger()
+		s.loggers = l
+		return s, err
 	case "zap":
 		b := &lockedBuffer{}
 		core := zapcore.NewCore(zapcore.NewConsoleEncoder(zap.NewDevelopmentEncoderConfig()), b, zapcore.DebugLevel)
@@ -200,7 +237,7 @@ func newLogSubject(name, tmp string, ring int) (*logSubject, error) {
 	return nil, fmt.Errorf("unknown logger %s", name)
 }
 
-var logSubjects = []string{"string", "plainstring", "file", "json", "logr", "zap", "logrus", "hclog", "slog", "quiet", "noop", "std", "multiple", "combined", "async", "jsonasync"}
+var logSubjects = []string{"string", "plainstring", "file", "file-and-std", "pipe", "json", "logr", "logr-structured", "via-writers", "zap", "logrus", "hclog", "slog", "quiet", "noop", "std", "multiple", "combined", "async", "jsonasync"}
 
 // child: `logsafe-child <logger> <producers> <messages> <ring> <tmp>` prints one line per finding: `FAIL <key> | <observed>`
 func logSafeChild(args []string) {
@@ -215,7 +252,7 @@ func logSafeChild(args []string) {
 		fmt.Printf("FAIL harness-error:constructor | %v\n", err)
 		return
 	}
-	if name == "std" {
+	if name == "std" || name == "pipe" || name == "file-and-std" {
 		// keep the child's own protocol readable: the std logger writes to stdout / stderr
 		devnull, _ := os.OpenFile(os.DevNull, os.O_WRONLY, 0)
 		defer devnull.Close()
